@@ -126,10 +126,11 @@ def InDomain (spec : List Nat) (v : Value) : Bool :=
 
 /-- The digit-generation hypotheses of the float theorem (facts about `PV.Dec`, the contract of Rust's
     and CPython's digit generators), per presentation type — see `FloatFacts` in `Float.lean`:
-    `g G n` and a precision without type: `GenDigits` (rounding to P significant digits and to P-1-X
-    decimals give the same digits); `%`: `x · 100` is a non-negative non-NaN double; no type and no
-    precision: `ReprDigits` (CPython's and Rust's shortest digits agree — they differ on exact ties —,
-    integers have their integer digits, non-integers have a fraction); `e E f F`: nothing.
+    `%`: `x · 100` is a non-negative non-NaN double; no type and no precision: `ReprDigits` (CPython's
+    and Rust's shortest digits agree — they differ on exact ties —, integers have their integer
+    digits, non-integers have a fraction); `e E f F g G n` and a precision without type: NOTHING
+    (`genDigits_all`: rounding to P significant digits and to P-1-X decimals give the same digits,
+    proved for every double).
     Decidable; evaluated by the driver (`ffacts`) on every double the check sends. -/
 def FloatDigitFacts (spec : List Nat) (bits : Nat) : Prop :=
   ∀ p, pyParseSpec spec = some p → PV.Dec.isFinite bits = true → FloatFacts p (absBits bits)
